@@ -1,9 +1,11 @@
 #define _GNU_SOURCE
+#include <sys/prctl.h>
 #include <sys/wait.h>
 
 #include <errno.h>
 #include <fcntl.h>
 #include <setjmp.h>
+#include <signal.h>
 #include <stdarg.h>
 #include <stdio.h>
 #include <stdlib.h>
@@ -227,6 +229,7 @@ run_forked(int slot)
 	pid_t pid; int st; char path[600], text[8192], sig[200];
 	fflush(stdout);
 	if ((pid = fork()) == 0) {
+		prctl(PR_SET_PDEATHSIG, SIGKILL);
 		in_exec = 1;
 		if (setjmp(jb) == 0) { CFG->body(); in_exec = 0; fflush(stdout); exit(0); }
 		fflush(stdout);
@@ -272,6 +275,7 @@ static void
 worker(int slot, int resume)
 {
 	char path[600]; static struct item it;
+	prctl(PR_SET_PDEATHSIG, SIGKILL);	/* never outlive the coordinating process */
 	W = &SH->w[slot];
 	snprintf(path, sizeof(path), "%s/mcerr.%d.%d", getenv("VF_TMP") ? getenv("VF_TMP") : ".", (int)getppid(), slot);
 	errfd = open(path, O_RDWR | O_CREAT | O_TRUNC, 0644);
